@@ -15,6 +15,7 @@ def meta_to_json(m):
     return {
         "isdir": bool(m.isdir), "size": m.size, "nfiles": m.nfiles, "isexec": bool(m.isexec),
         "version_id": m.version_id, "etag": m.etag, "checksum": m.checksum, "md5": m.md5, "remote": m.remote,
+        "inode": m.inode, "mtime": None if m.mtime is None else int(m.mtime),
     }
 
 
